@@ -18,9 +18,13 @@ RULE = ('A case is a history of 3-18 (thorough: 3-40) evaluations of the real _r
         'count-only writes), '
         'deleted and re-created, the ZooKeeper connection flaps (SUSPENDED '
         'or LOST, then CONNECTED, no node changed; ~1 round in 10), and the '
-        'instance API succeeds or fails with '
+        'instance API (a counting stand-in in 2/3 of the histories) '
+        'succeeds or fails with '
         'NotFound / BadRequest / Validation / TooManyRequests / AlreadyExists '
-        '/ MaxRequestRetries. Non-trivial = in the same history a bucket ran '
+        '/ MaxRequestRetries; in 1/3 of the histories the requests go '
+        'through the real api.instance + masterapi on the API server\'s own '
+        'ZooKeeper session with one-shot faults on its writes (request lost '
+        'before apply / reply lost after apply / session expired). Non-trivial = in the same history a bucket ran '
         'dry (budget below the number missing) and later paid for a create '
         'again, and an API failure suspended a monitor. distinct = canonical '
         'JSON of the case.')
@@ -35,6 +39,13 @@ ASSUMPTIONS = [
     'nothing in the model (same budget, suspension, instances)',
     'virtual clock (integer microseconds, +2us per read) replaces '
     'treadmill.sproc.appmonitor.time; its sleep() applies the next round',
+    'real-API histories: the HTTP hop is one attempt dispatched as '
+    'rest.api.instance does, errors mapped as rest.error_handlers + '
+    'restclient do; LDAP answers one fixed manifest (or not-found / a '
+    'manifest the API refuses); a site plugin stub adds proid and '
+    'environment; kazoo.retry.KazooRetry is the real class with a virtual '
+    'default sleep; instances that appear / vanish during one request are '
+    'counted on the shared tree (nothing else runs meanwhile)',
     'restclient.post is a recorder; a successful create/delete really adds/'
     'removes /scheduled nodes before the next evaluation',
     'the model follows the configuration as the administrator issued it '
@@ -153,6 +164,27 @@ def fixed_cases():
                 {'dt': 0, 'ops': [['mon', web, 3, None]]},
                 {'dt': 0, 'ops': [['mon', web, None, 'lifo'],
                                   ['mon', web, 1, None]]},
+                {'dt': 0, 'ops': []},
+            ]}),
+        # the monitor's requests go through the real instance API and
+        # masterapi; the API server's ZooKeeper session loses replies /
+        # requests / its session in the middle of a batch: never more
+        # instances than asked for, the rest is asked for again
+        ('real-api-zk-faults', {
+            'seq0': 0, 'real_api': True,
+            'init': [['mon', web, 3, None], ['mon', 'other.db', 2, 'lifo'],
+                     ['spawn', 'other.db', 2]],
+            'rounds': [
+                {'dt': 0, 'ops': [], 'api': {web: ['fault', 'after', 0]}},
+                {'dt': 0, 'ops': [], 'api': {web: ['fault', 'after', 2]}},
+                {'dt': 0, 'ops': [['dieall', web]],
+                 'api': {web: ['fault', 'before', 0]}},
+                {'dt': 0, 'ops': [], 'api': {web: ['fault', 'expired', 2]}},
+                {'dt': 0, 'ops': [['spawn', 'other.db', 2]],
+                 'api': {'other.db': ['fault', 'after', 0]}},
+                {'dt': 0, 'ops': [], 'api': {web: 'badrequest'}},
+                {'dt': 0, 'ops': []},
+                {'dt': 301, 'ops': []},
                 {'dt': 0, 'ops': []},
             ]}),
         # monitors deleted / re-created / rewritten while apps interleave
